@@ -243,7 +243,11 @@ func (cr *concRun) doOp(c string, op Op, body []byte, slowBody *gatedBody, slowW
 		w = newRecWriter()
 	}
 	k := toBytes(op["k"])
-	path := "/" + concBucket
+	bucket := op.S("b")
+	if bucket == "" {
+		bucket = concBucket
+	}
+	path := "/" + bucket
 	if k != "" {
 		path += "/" + k
 	}
@@ -270,10 +274,14 @@ func (cr *concRun) doOp(c string, op Op, body []byte, slowBody *gatedBody, slowW
 	case "DeleteObject":
 		method = "DELETE"
 	case "ListObjects":
-		path = "/" + concBucket
+		path = "/" + bucket
 	case "CopyObject":
 		method = "PUT"
-		hdr.Set("X-Amz-Copy-Source", "/"+concBucket+"/"+url.QueryEscape(toBytes(op["sk"])))
+		sb := op.S("sb")
+		if sb == "" {
+			sb = concBucket
+		}
+		hdr.Set("X-Amz-Copy-Source", "/"+sb+"/"+url.QueryEscape(toBytes(op["sk"])))
 		hdr.Set("Content-Length", "0")
 	case "UploadPart":
 		method = "PUT"
@@ -299,19 +307,34 @@ func (cr *concRun) doOp(c string, op Op, body []byte, slowBody *gatedBody, slowW
 		hdr.Set("Content-Length", fmt.Sprint(len(bb)))
 		clen = int64(len(bb))
 		rd = bytes.NewReader(bb)
+	case "CreateBucket":
+		method = "PUT"
+		path = "/" + bucket
+	case "HeadBucket":
+		method = "HEAD"
+		path = "/" + bucket
+	case "DeleteBucket":
+		method = "DELETE"
+		path = "/" + bucket
+		if op.B("force") {
+			hdr.Set("x-minio-force-delete", "true")
+		}
+	case "Abort":
+		method = "DELETE"
+		q.Set("uploadId", op.S("uid"))
 	case "Initiate":
 		method = "POST"
 		q.Set("uploads", "")
 	case "PutVersioning":
 		method = "PUT"
-		path = "/" + concBucket
+		path = "/" + bucket
 		q.Set("versioning", "")
 		bb := []byte("<VersioningConfiguration><Status>" + op.S("status") + "</Status></VersioningConfiguration>")
 		hdr.Set("Content-Length", fmt.Sprint(len(bb)))
 		clen = int64(len(bb))
 		rd = bytes.NewReader(bb)
 	case "GetVersioning":
-		path = "/" + concBucket
+		path = "/" + bucket
 		q.Set("versioning", "")
 	case "DeleteObjectVersion":
 		method = "DELETE"
@@ -321,7 +344,7 @@ func (cr *concRun) doOp(c string, op Op, body []byte, slowBody *gatedBody, slowW
 		q.Set("versionId", op.S("vid"))
 	case "DeleteMulti":
 		method = "POST"
-		path = "/" + concBucket
+		path = "/" + bucket
 		q.Set("delete", "")
 		var sb strings.Builder
 		sb.WriteString("<Delete>")
@@ -446,16 +469,20 @@ func (cr *concRun) doOp(c string, op Op, body []byte, slowBody *gatedBody, slowW
 	cr.record(cEvent{T: "res", C: c, R: r, Seq: resSeq})
 }
 
-func (cr *concRun) finalSnapshot(keys []string) cEvent {
+func (cr *concRun) finalSnapshot(keys []string) cEvent { return cr.finalSnapshotOf([]string{concBucket}, keys) }
+
+func (cr *concRun) finalSnapshotOf(buckets, keys []string) cEvent {
 	ev := cEvent{T: "final", Seq: cr.next()}
-	for _, k := range keys {
-		w := newRecWriter()
-		cr.serve("GET", "/"+concBucket+"/"+k, url.Values{}, nil, nil, 0, w)
-		o := Op{"b": concBucket, "k": keyBytes(k), "present": w.status == 200 || w.status == 0, "body": []interface{}{}}
-		if w.status == 200 || w.status == 0 {
-			o["body"] = cr.atomOfBody(w.buf.Bytes())
+	for _, b := range buckets {
+		for _, k := range keys {
+			w := newRecWriter()
+			cr.serve("GET", "/"+b+"/"+k, url.Values{}, nil, nil, 0, w)
+			o := Op{"b": b, "k": keyBytes(k), "present": w.status == 200 || w.status == 0, "body": []interface{}{}}
+			if w.status == 200 || w.status == 0 {
+				o["body"] = cr.atomOfBody(w.buf.Bytes())
+			}
+			ev.Objs = append(ev.Objs, o)
 		}
-		ev.Objs = append(ev.Objs, o)
 	}
 	return ev
 }
@@ -613,9 +640,92 @@ func seqRun(sysName string, m int, seed int64) ([]cEvent, error) {
 	r := rand.New(rand.NewSource(seed * 104729))
 	versioned := cr.sys.Versioned()
 	known := map[string][]string{}
+	// pending multipart uploads: uid -> key, and the part names uploaded under it
+	type pend struct {
+		key   string
+		parts map[int]string
+	}
+	ups := map[string]*pend{}
+	var upOrder []string
+	const other = "bkt2" // a second bucket that comes and goes
 	for i := 0; i < m; i++ {
 		k := keys[r.Intn(len(keys))]
 		kb := keyBytes(k)
+		// bucket life cycle and multipart life cycle, one step in five
+		if y := r.Intn(100); y < 20 {
+			switch {
+			case y < 3:
+				cr.doOp("1", Op{"op": "CreateBucket", "b": other}, nil, nil, nil)
+			case y < 5:
+				cr.doOp("1", Op{"op": "DeleteBucket", "b": other, "force": r.Intn(3) == 0}, nil, nil, nil)
+			case y < 6:
+				cr.doOp("1", Op{"op": "HeadBucket", "b": other}, nil, nil, nil)
+			case y < 9:
+				name := fmt.Sprintf("o%d", i)
+				body := cr.atom(name, r)
+				cr.doOp("1", Op{"op": "PutObject", "b": other, "k": kb, "body": []interface{}{name}, "meta": []interface{}{}, "vid": ""}, body, nil, nil)
+			case y < 10:
+				cr.doOp("1", Op{"op": "DeleteObject", "b": other, "k": kb, "vid": ""}, nil, nil, nil)
+			case y < 11:
+				cr.doOp("1", Op{"op": "CopyObject", "b": concBucket, "k": kb, "sb": other, "sk": keyBytes(keys[r.Intn(len(keys))]), "meta": []interface{}{}}, nil, nil, nil)
+			case y < 13 && len(ups) < 3:
+				op := Op{"op": "Initiate", "b": concBucket, "k": kb, "meta": []interface{}{}, "uid": ""}
+				cr.doOp("1", op, nil, nil, nil)
+				if u := op.S("uid"); u != "" {
+					ups[u] = &pend{key: k, parts: map[int]string{}}
+					upOrder = append(upOrder, u)
+				}
+			case y < 17 && len(upOrder) > 0:
+				u := upOrder[r.Intn(len(upOrder))]
+				n := 1 + r.Intn(3)
+				name := fmt.Sprintf("p%d", i)
+				body := cr.atom(name, r)
+				if len(body) == 0 {
+					continue
+				}
+				cr.doOp("1", Op{"op": "UploadPart", "b": concBucket, "k": keyBytes(ups[u].key), "uid": u, "n": float64(n), "body": []interface{}{name}}, body, nil, nil)
+				ups[u].parts[n] = name
+			case y < 19 && len(upOrder) > 0:
+				u := upOrder[r.Intn(len(upOrder))]
+				var ns []int
+				for n := range ups[u].parts {
+					if r.Intn(4) > 0 {
+						ns = append(ns, n)
+					}
+				}
+				sort.Ints(ns)
+				if len(ns) == 0 {
+					continue
+				}
+				var list []interface{}
+				for _, n := range ns {
+					list = append(list, map[string]interface{}{"n": float64(n), "body": []interface{}{ups[u].parts[n]}})
+				}
+				op := Op{"op": "Complete", "b": concBucket, "k": keyBytes(ups[u].key), "uid": u, "list": list, "vid": ""}
+				cr.doOp("1", op, nil, nil, nil)
+				if v := op.S("vid"); v != "" {
+					known[ups[u].key] = append(known[ups[u].key], v)
+				}
+				delete(ups, u)
+				for j, x := range upOrder {
+					if x == u {
+						upOrder = append(upOrder[:j], upOrder[j+1:]...)
+						break
+					}
+				}
+			case len(upOrder) > 0:
+				u := upOrder[r.Intn(len(upOrder))]
+				cr.doOp("1", Op{"op": "Abort", "b": concBucket, "k": keyBytes(ups[u].key), "uid": u}, nil, nil, nil)
+				delete(ups, u)
+				for j, x := range upOrder {
+					if x == u {
+						upOrder = append(upOrder[:j], upOrder[j+1:]...)
+						break
+					}
+				}
+			}
+			continue
+		}
 		x := r.Intn(100)
 		switch {
 		case x < 30:
@@ -666,7 +776,7 @@ func seqRun(sysName string, m int, seed int64) ([]cEvent, error) {
 			cr.doOp("1", Op{"op": "DeleteMulti", "b": concBucket, "objs": objs}, nil, nil, nil)
 		}
 	}
-	cr.record(cr.finalSnapshot(keys))
+	cr.record(cr.finalSnapshotOf([]string{concBucket, other}, keys))
 	return cr.sorted(), nil
 }
 
